@@ -39,6 +39,7 @@ func (dec *tomlDecoder) Init(reader io.Reader) error {
 		Kind: MappingNode,
 		Tag:  "!!map",
 	}
+	dec.finished = false
 	return nil
 }
 
